@@ -78,7 +78,11 @@ Definition rec_width (r : irec) : N := blen (r_digest r) + 8.
 Definition mwi_load_with (srt : list irec -> list irec) (rs : list irec) (m : mwi) : mwi :=
   fold_left (fun acc g => kv_put (fst g) (compact (srt (snd g))) acc)
             (group_by rec_width rs) m.
-Definition mwi_load (rs : list irec) (m : mwi) : mwi := mwi_load_with sort_by_digest rs m.
+(* the executable instance, written out (convertible with [mwi_load_with sort_by_digest]) so that
+   [unfold mwi_load] shows the fold itself *)
+Definition mwi_load (rs : list irec) (m : mwi) : mwi :=
+  fold_left (fun acc g => kv_put (fst g) (compact (sort_by_digest (snd g))) acc)
+            (group_by rec_width rs) m.
 
 Definition swi_marshal (b : N * bytes) : bytes :=
   le_enc 4 (fst b) ++ le_enc 8 (blen (snd b)) ++ snd b.
@@ -86,9 +90,12 @@ Definition mwi_marshal (m : mwi) : bytes :=
   le_enc 4 (N.of_nat (length m)) ++ concat (map swi_marshal m).
 
 Definition max_width : N := 33554432.
-(* runtime.maxAlloc on linux/amd64 (1 << 48): make([]byte, n) with n above it panics
-   "makeslice: len out of range"; below it the allocation is attempted (DESIGN section 6 #9, C09) *)
-Definition max_alloc : N := 281474976710656.
+(* the largest bucket length singleWidthIndex.Unmarshal accepts: the declared length must fit int64.
+   (Before the C09 repair the bucket was allocated up front and anything above runtime.maxAlloc = 2^48
+   panicked in makeslice; the repaired code reads the bucket incrementally, so only the int64 test
+   remains.  A []byte above 2^48 bytes cannot exist in Go, i.e. such inputs are outside what any
+   caller can present; the model does not represent that allocator limit.) *)
+Definition max_alloc : N := 9223372036854775807.
 
 (* singleWidthIndex.Unmarshal: Ok ((width, data), rest) *)
 Definition swi_unmarshal (s : bytes) : res ((N * bytes) * bytes) :=
@@ -101,7 +108,6 @@ Definition swi_unmarshal (s : bytes) : res ((N * bytes) * bytes) :=
   if width <? 8 then Err EOther
   else if max_width <? width then Err EOther
   else if two63 <=? dlen then Err EOther
-  else if max_alloc <? dlen then Err EPanic                     (* buf := make([]byte, dataLen) *)
   else if (0 <? dlen) && (blen s2 =? 0) then Err EEof          (* io.ReadFull: nothing read *)
   else if blen s2 <? dlen then Err EUnexpectedEof
   else Ok ((width, take dlen s2), drop dlen s2).
@@ -178,7 +184,8 @@ Definition mhidx := list (N * mwi).
 
 Definition mh_load_with (srt : list irec -> list irec) (rs : list irec) (m : mhidx) : mhidx :=
   fold_left (fun acc g => kv_put (fst g) (mwi_load_with srt (snd g) []) acc) (group_by r_code rs) m.
-Definition mh_load (rs : list irec) (m : mhidx) : mhidx := mh_load_with sort_by_digest rs m.
+Definition mh_load (rs : list irec) (m : mhidx) : mhidx :=
+  fold_left (fun acc g => kv_put (fst g) (mwi_load (snd g) []) acc) (group_by r_code rs) m.
 
 Definition mh_marshal (m : mhidx) : bytes :=
   le_enc 4 (N.of_nat (length m)) ++
@@ -230,7 +237,8 @@ Definition idx_load_with (srt : list irec -> list irec) (rs : list irec) (i : in
   | IdxSorted m => IdxSorted (mwi_load_with srt rs m)
   | IdxMh m => IdxMh (mh_load_with srt rs m)
   end.
-Definition idx_load (rs : list irec) (i : index) : index := idx_load_with sort_by_digest rs i.
+Definition idx_load (rs : list irec) (i : index) : index :=
+  match i with IdxSorted m => IdxSorted (mwi_load rs m) | IdxMh m => IdxMh (mh_load rs m) end.
 Definition idx_marshal (i : index) : bytes :=
   match i with IdxSorted m => mwi_marshal m | IdxMh m => mh_marshal m end.
 (* index.WriteTo: codec varint then Marshal; the reported length is blen of this *)
@@ -260,7 +268,11 @@ Definition ii_flatten_with (srt : list irec -> list irec) (codec : N) (ii : iidx
   | Some i => Some (idx_load_with srt (ii_flatten_records ii) i)
   | None => None
   end.
-Definition ii_flatten (codec : N) (ii : iidx) : option index := ii_flatten_with sort_by_digest codec ii.
+Definition ii_flatten (codec : N) (ii : iidx) : option index :=
+  match idx_new codec with
+  | Some i => Some (idx_load (ii_flatten_records ii) i)
+  | None => None
+  end.
 
 (* layer B: what a lookup must return -- offsets of the records carrying that key *)
 Definition spec_offsets_digest (rs : list irec) (d : bytes) : list N :=
